@@ -22,6 +22,9 @@ def initRec (b : Book) (w : String) : Book := if (load b w).isSome then b else b
 def onSubmit (b : Book) (w : String) (diff now : Int) : Book :=
   (initRec b w).map fun e => if e.1 = w then (e.1, ({ last := now, work := e.2.work + diff, shares := e.2.shares + 1 } : Rec)) else e
 
+/-- `OnConnect`: `LoadOrStore`, then the record counts one more connection — what was measured so far is untouched -/
+def onConnect (b : Book) (w : String) : Book := initRec b w
+
 /-- `Reset`: the record is deleted -/
 def reset (b : Book) (w : String) : Book := b.filter (·.1 ≠ w)
 
